@@ -206,3 +206,83 @@ func c07FontDict(i int, raw []byte) Result {
 	}
 	return r
 }
+
+// c07Rebind: ONE resource name bound to two fonts in one extraction - the page's /F1 and the /F1 of a Form XObject's own
+// resources - and the same bytes shown under both: each string is decoded by the font in force where it is shown.
+// A case is a pair of font dictionary cases with different effective encodings (both Type1, written by name).
+func c07Rebind(i int, raw []byte) Result {
+	var c struct {
+		A, B fdCase
+	}
+	if err := json.Unmarshal(raw, &c); err != nil || len(c.A.Expect) != 256 || len(c.B.Expect) != 256 {
+		return fail("decode", "decode", fmt.Sprintf("rebind case: %v", err), nil)
+	}
+	r := Result{OK: true, Nontrivial: true, Key: string(raw), Evals: 1}
+	var codes []byte
+	var wantA, wantB []rune
+	for code := 0x21; code < 256 && len(codes) < 24; code++ {
+		a, b := c.A.Expect[code], c.B.Expect[code]
+		if a > 0x20 && b > 0x20 && a != b && a != 0xA0 && b != 0xA0 && a != 0xAD && b != 0xAD {
+			codes = append(codes, byte(code))
+			wantA = append(wantA, []rune(font.NormalizeUnicode(string(rune(a))))...)
+			wantB = append(wantB, []rune(font.NormalizeUnicode(string(rune(b))))...)
+		}
+	}
+	if len(codes) == 0 {
+		return r
+	}
+	fontOf := func(c fdCase) pdfw.Dict {
+		d := pdfw.Dict{{"Type", pdfw.Name("Font")}, {"Subtype", pdfw.Name("Type1")}, {"BaseFont", pdfw.Name("Helvetica")}}
+		if c.Sp == "name" {
+			d = append(d, pdfw.KV{"Encoding", pdfw.Name(c.Name)})
+		}
+		return d
+	}
+	show := fmt.Sprintf("<%X> Tj", codes)
+	f := &pdfw.File{EOL: "lf", Revs: []pdfw.Revision{{XRef: "table", Root: pdfw.Ref{Num: 1}, Items: []pdfw.Item{
+		{Num: 1, Val: pdfw.Dict{{"Type", pdfw.Name("Catalog")}, {"Pages", pdfw.Ref{Num: 2}}}},
+		{Num: 2, Val: pdfw.Dict{{"Type", pdfw.Name("Pages")}, {"Kids", pdfw.Arr{pdfw.Ref{Num: 3}}}, {"Count", pdfw.Int(1)}}},
+		{Num: 3, Val: pdfw.Dict{{"Type", pdfw.Name("Page")}, {"Parent", pdfw.Ref{Num: 2}}, {"MediaBox", pdfw.Arr{pdfw.Int(0), pdfw.Int(0), pdfw.Int(612), pdfw.Int(792)}},
+			{"Resources", pdfw.Dict{{"Font", pdfw.Dict{{"F1", pdfw.Ref{Num: 5}}}}, {"XObject", pdfw.Dict{{"X1", pdfw.Ref{Num: 7}}}}}}, {"Contents", pdfw.Ref{Num: 4}}}},
+		{Num: 4, Stm: &pdfw.Stream{Data: []byte("BT /F1 10 Tf 40 700 Td " + show + " ET\n/X1 Do\nBT /F1 10 Tf 40 500 Td " + show + " ET")}},
+		{Num: 5, Val: fontOf(c.A)},
+		{Num: 6, Val: fontOf(c.B)},
+		{Num: 7, Stm: &pdfw.Stream{Dict: pdfw.Dict{{"Type", pdfw.Name("XObject")}, {"Subtype", pdfw.Name("Form")}, {"BBox", pdfw.Arr{pdfw.Int(0), pdfw.Int(0), pdfw.Int(612), pdfw.Int(792)}},
+			{"Resources", pdfw.Dict{{"Font", pdfw.Dict{{"F1", pdfw.Ref{Num: 6}}}}}}}, Data: []byte("BT /F1 10 Tf 40 600 Td " + show + " ET")}},
+	}}}}
+	data, _, err := f.Bytes()
+	if err != nil {
+		return Result{OK: false, Sig: "MACHINERY:pdfw", What: err.Error()}
+	}
+	dir := os.Getenv("VERIF_SCRATCH")
+	if dir == "" {
+		dir = os.TempDir()
+	}
+	path := filepath.Join(dir, fmt.Sprintf("c07rb-%d-%d.pdf", os.Getpid(), i))
+	if err := os.WriteFile(path, data, 0o644); err != nil {
+		return Result{OK: false, Sig: "MACHINERY:io", What: err.Error()}
+	}
+	defer os.Remove(path)
+	frs, _, err := tabula.Open(path).Fragments()
+	if err != nil {
+		return fail("fontdict-error", "C07:fontdict-error:rebind", "Fragments() of the rebinding document: "+err.Error(), nil)
+	}
+	var got []rune
+	for _, fr := range frs {
+		for _, ch := range fr.Text {
+			if ch != ' ' {
+				got = append(got, ch)
+			}
+		}
+	}
+	// in content order: the page's font, the form's font, the page's font again (the form's resources end with the form)
+	want := string(wantA) + string(wantB) + string(wantA)
+	if string(got) != want {
+		x := fail("rebind", fmt.Sprintf("C07:rebind:%s-then-%s", c.A.Effective, c.B.Effective),
+			fmt.Sprintf("codes % X shown under /F1 of the page (%s), under /F1 of a form's own resources (%s) and under the page's /F1 again read %q; each string is decoded by the font in force where it is shown: %q",
+				codes, c.A.Effective, c.B.Effective, string(got), want), map[string]interface{}{"case": json.RawMessage(raw)})
+		x.Nontrivial, x.Key, x.Evals = true, string(raw), 1
+		return x
+	}
+	return r
+}
